@@ -20,7 +20,7 @@ ASSUMPTIONS = ['refmodel/vector.py (independent interpreters), refmodel/colors.p
                'relative tolerance 1e-9 on page sizes, 0.005 on opacity']
 REQUIRED = ['evaluations', 'documents_checked', 'kind:svg', 'kind:eps', 'kind:pdf', 'kind:tex', 'fractional_scale', 'scale_below_1',
             'with_background', 'svg_group_transform']
-TIMEOUT = {'quick': 900, 'thorough': 7200}
+TIMEOUT = {'quick': 3600, 'thorough': 21600}
 SCALES = [0.5, 0.7, 1, 1, 2, 2.5, 3.3, 10, 4, 0.25, 1.5, 7.75]
 
 
